@@ -30,6 +30,10 @@ mod args;
 mod defer;
 mod options;
 
+#[cfg(divan_verif)]
+#[path = "../verif/bench_hooks.rs"]
+pub mod verif_hooks;
+
 use defer::{DeferSlot, DeferStore};
 
 pub use self::{
